@@ -272,7 +272,7 @@ func (c *C19) Run(x *engine.Ctx) *engine.Violation {
 			fault := "none"
 			expectOK := p.ok && p.mode == k.sys.Mode
 			mustFail := false // causes the property lists as ending in a non-zero exit
-			switch t.Weighted(8, 1, 1, 1, 1, 1, 1, 1) {
+			switch t.Weighted(8, 1, 1, 1, 1, 1, 1, 2) {
 			case 1:
 				mode, fault, expectOK, mustFail = "", "mode-absent", false, true
 			case 2:
@@ -303,7 +303,18 @@ func (c *C19) Run(x *engine.Ctx) *engine.Violation {
 				stdin, _ = json.Marshal(doc)
 				fault, expectOK, mustFail = "parameters-invalid", false, true
 			case 7:
-				stdin = stdin[:len(stdin)/2]
+				// what an interrupted or failed upstream stage of the pipeline leaves on stdin: nothing at all,
+				// blank space only, or a prefix of the document cut anywhere
+				switch t.Draw(4) {
+				case 0:
+					stdin = stdin[:len(stdin)/2]
+				case 1:
+					stdin = nil
+				case 2:
+					stdin = []byte(" \n\t\n")[:1+t.Draw(4)]
+				default:
+					stdin = stdin[:t.Draw(len(stdin))]
+				}
 				fault, expectOK, mustFail = "parameters-truncated", false, true
 			}
 			args := []string{"prove", "--keys-file", keysPath}
@@ -389,7 +400,14 @@ func (c *C19) Run(x *engine.Ctx) *engine.Violation {
 				proofJSON = renderProof(cs)
 				fault = "proof-coordinates-swapped"
 			case 3:
-				proofJSON = proofJSON[:1+t.Draw(len(proofJSON)-1)]
+				switch t.Draw(4) {
+				case 0:
+					proofJSON = nil // the upstream stage failed: nothing on stdin
+				case 1:
+					proofJSON = []byte(" \n\t\n")[:1+t.Draw(4)]
+				default:
+					proofJSON = proofJSON[:1+t.Draw(len(proofJSON)-1)]
+				}
 				fault = "proof-json-truncated"
 			case 4:
 				hashVal = new(big.Int).Add(pr.hash, big.NewInt(1))
